@@ -424,7 +424,16 @@ class Check:
             pr = json.loads(l)
             if pr["id"] == self.id:
                 anchors |= set(pr["anchors"]["files"])
-        dirs = {os.path.dirname(a) for a in anchors} | {"utils", "memmetrics", "internal/holsterv4/collections", "internal/holsterv4/clock"}
+        dirs = {os.path.dirname(a) for a in anchors}
+        # plus every package of the repository those packages import (transitively): a change in a helper package
+        # (utils, memmetrics, the TTL map ...) matters exactly to the properties whose code depends on it
+        try:
+            r = subprocess.run(["go", "list", "-deps"] + ["./" + d for d in sorted(dirs)], cwd=REPO, env=GOENV,
+                               stdout=subprocess.PIPE, stderr=subprocess.DEVNULL, text=True, timeout=120)
+            pref = "github.com/vulcand/oxy/v2/"
+            dirs |= {l[len(pref):] for l in r.stdout.split() if l.startswith(pref)}
+        except Exception:
+            dirs |= {"utils", "memmetrics", "internal/holsterv4/collections", "internal/holsterv4/clock"}
         return [c for c in changed if os.path.dirname(c) in dirs]
 
     def judge(self, scens, search_only=False):
